@@ -15,7 +15,8 @@ package server
 //@ define qInv(q *quorumAckTracker) bool = q.tracker != nil && q.requiredAcks == q.replicationFactor/2 && 1 <= q.replicationFactor && q.replicationFactor <= 17 && -1 <= q.commitOffset.v && q.commitOffset.v <= q.headOffset.v && q.headOffset.v < 4611686018427387904 && 0 <= q.cursorIdxGenerator && q.cursorIdxGenerator <= 16 && (forall k int :: 0 <= k && k < len(q.waitingRequests) ==> q.waitingRequests[k].callback != nil) && (forall o int64 :: inmap(q.tracker, o) ==> q.tracker[o] != nil && o <= q.headOffset.v && (q.requiredAcks > 0 ==> q.commitOffset.v < o && popcount16(q.tracker[o].bits) < q.requiredAcks)) && (forall o1 int64, o2 int64 :: inmap(q.tracker, o1) && inmap(q.tracker, o2) && o1 != o2 ==> q.tracker[o1] != q.tracker[o2]) && (forall o1 int64, o2 int64, j int :: inmap(q.tracker, o1) && inmap(q.tracker, o2) && o1 < o2 && 0 <= j && j < 16 && bit16(q.tracker[o2].bits, j) ==> bit16(q.tracker[o1].bits, j))
 
 //@ func quorumAckTracker.notifyCommitOffsetAdvanced
-//@ property C08 C01
+//@ property C08 C01 C07
+//@ holdslock
 //@ requires q.commitOffset.v <= commitOffset
 //@ requires forall k int :: 0 <= k && k < len(q.waitingRequests) ==> q.waitingRequests[k].callback != nil
 //@ loop 0 invariant -1 <= rangeindex && len(q.waitingRequests) == old(len(q.waitingRequests)) - rangeindex - 1 && q.commitOffset.v == commitOffset
@@ -668,3 +669,43 @@ package server
 //@ ensures err == nil ==> result != nil && forall a SessionId :: inmap(result, a) ==> result[a] != nil
 //@ ensures err == nil ==> forall a SessionId, b SessionId :: inmap(result, a) && inmap(result, b) && a != b ==> result[a] != result[b]
 //@ modifies nothing
+
+// ---------------------------------------------------------------- leader: the cursor that feeds one follower (C08, C03)
+
+//@ func ReplicateStreamProvider.GetReplicateStream(recv, ctx, follower, namespace, shard, term) (stream, err)
+//@ trusted
+//@ modifies nothing
+//@ ensures err == nil ==> stream != nil
+
+//@ func quorumAckTracker.WaitForHeadOffset
+//@ trusted
+//@ modifies nothing
+//@ note trusted: blocks on a condition variable until the head offset reaches the argument
+
+// (Re)attaching a cursor: the log is re-read starting right after the last offset the
+// follower has ACKNOWLEDGED (not the last one pushed: entries in flight on a broken stream
+// are sent again), so the follower is never offered a gap.
+//
+//@ func followerCursor.streamEntries(fc) (err)
+//@ property C08 C03
+//@ requires fc.ctx != nil && fc.replicateStreamProvider != nil && fc.wal != nil && fc.log != nil && fc.ackTracker != nil && fc.ackOffset.v < 4611686018427387904
+//@ requires as(fc.wal, *wal.wal).readLatency != nil && as(fc.wal, *wal.wal).lastSyncedOffset.v < 4611686018427387904
+//@ assert at call NewReader#0: after == fc.ackOffset.v
+//@ assert at call streamEntriesLoop#0: currentOffset == fc.ackOffset.v
+//@ modifies *
+
+// The stream towards the follower is contiguous: every entry sent is the one right after
+// the previous one (starting right after currentOffset), in the cursor's term, and the
+// pushed position is remembered only after the send succeeded.
+//
+//@ func followerCursor.streamEntriesLoop(fc, ctx, reader, currentOffset) (err)
+//@ property C08 C03
+//@ requires reader != nil && typeIs(reader, *wal.forwardReader) && fc.ackTracker != nil && fc.stream != nil && fc.log != nil
+//@ requires as(reader, *wal.forwardReader).reader.wal != nil && as(reader, *wal.forwardReader).reader.wal.readLatency != nil && as(reader, *wal.forwardReader).reader.wal.lastSyncedOffset.v < 4611686018427387904
+//@ requires as(reader, *wal.forwardReader).reader.nextOffset == currentOffset + 1
+//@ assert at call Send#0: arg0 != nil && arg0.Entry != nil && arg0.Entry.Offset == as(reader, *wal.forwardReader).reader.nextOffset - 1 && arg0.Term == fc.term
+//@ loop 0 modifies *
+//@ loop 0 invariant fc.ackTracker == old(fc.ackTracker) && fc.stream == old(fc.stream) && fc.log == old(fc.log) && fc.term == old(fc.term) && fc.ackTracker != nil && fc.stream != nil && fc.log != nil
+//@ loop 0 invariant as(reader, *wal.forwardReader).reader.wal == old(as(reader, *wal.forwardReader).reader.wal) && as(reader, *wal.forwardReader).reader.wal.readLatency != nil && as(reader, *wal.forwardReader).reader.wal.lastSyncedOffset.v < 4611686018427387904
+//@ loop 0 invariant as(reader, *wal.forwardReader).reader.nextOffset == currentOffset + 1
+//@ modifies *
